@@ -462,6 +462,23 @@ def r8_no_replay_in_step(ctx):
         ctx.vanished(f"replay queries in step logic: only {n} found")
 
 
+def r9_resolution_assembly(ctx):
+    """tiebroken_ranking splices the resolution of every tied group into the ranking at the group's own place: the
+    result is a strict order of exactly the tied candidates only if the fill cursor advances by what was written
+    (C03.R8's cursor discipline, restricted to tiebroken_ranking)."""
+    from rules import c03
+    sub = type(ctx)(ctx.prog, ctx.prop, ctx.tier)
+    c03.r8_cursor_discipline(sub)
+    n = 0
+    for o in sub.obs:
+        if o.function.endswith("tiebroken_ranking"):
+            o.rule = "C10.R9"
+            ctx.obs.append(o)
+            n += 1
+    if n < 1:
+        ctx.vanished("cursor obligations of tiebroken_ranking: none")
+
+
 RULES = [
     ("C10.R1", r1_rng_census, 20, "RNG census: draws only at the documented sites; deterministic rules reach only tiebreak_set's draw"),
     ("C10.R2", r2_only_in_tie, 6, "every tiebreak_set call is dominated by a tie test on its argument (or the overshoot test)"),
@@ -470,6 +487,7 @@ RULES = [
     ("C10.R7", r7_defaults, 13, "no tiebreak unless requested: documented defaults of the tiebreak parameters"),
     ("C10.R6", r6_genuine_ties, 2, "recorded ties are genuine: candidates are grouped by exact equal score"),
     ("C10.R8", r8_no_replay_in_step, 2, "steps never re-derive their input by replaying earlier (possibly tie-broken) rounds"),
+    ("C10.R9", r9_resolution_assembly, 1, "prerequisite: tiebroken_ranking assembles the resolutions with a correctly advanced cursor"),
     ("C10.R5", r5_groups_obey, 4, "selector splits the resolution prefix/suffix at one point; untied exit shape"),
 ]
 
